@@ -10,7 +10,7 @@ TIMEOUT = {'quick': 1500, 'thorough': 14400}
 EXHAUSTIVE = {
     'quick': 'build_spans over every site layout (subset of 0..n) for n<=8 x missed 0..4 x semi x min/max in '
              '{None,1..8}; get_cleavage_sites over every protein of length 0..5 on {K,R,P,D,E,A} x 19 named proteases '
-             '+ 9 user regexes',
+             '+ 14 user regexes',
     'thorough': 'build_spans over every site layout for n<=12 x missed 0..4 x semi x min/max in {None,1..12}; '
                 'get_cleavage_sites over every protein of length 0..8 on {K,R,P,D,E,A} x 19 named proteases + 9 user '
                 'regexes; digest over every protein of length 0..6 x rule sets x missed 0..2 x semi x 4 length windows'}
@@ -19,7 +19,10 @@ RULE = ('post-conditions on get_cleavage_sites (independent site finder: named p
         'digest_from_config / sequential_digest (composition of both, partial digestion, sorting, five return types). '
         'signature = (function, rule kinds, n bucket, missed, semi, bounds class, complete, return type, #sites bucket); '
         'non-trivial = at least one cleavage site strictly inside the protein')
-ASSUMPTIONS = ['the extra undigested span of partial digestion is accepted with the count the library gives it (0)',
+ASSUMPTIONS = ['regexes that mix a look-around alternative with a consuming one are exercised through get_cleavage_sites / digest '
+               'only, not in the sequential-equals-simultaneous clause (their reading of a fragment start depends on the '
+               'residue before it)',
+               'the extra undigested span of partial digestion is accepted with the count the library gives it (0)',
                'for build_spans called directly with every position a site the expected result is ambiguous '
                '(non-specific rule or not), such layouts are decided at the digest level where the rule is known']
 LEVEL_TEXT = ('Every get_cleavage_sites/build_spans/digest execution is compared with a set-comprehension model; the '
@@ -31,7 +34,10 @@ ALL20 = 'ACDEFGHIKLMNPQRSTVWY'
 NAMED = [k for k in rd.NAMED]
 USER_ZERO = ['(?<=K)', '(?=D)', '(?<=[KR])(?!P)', '(?=K)|(?<=K)', '(?<=E)|(?<=D)']
 USER_CONSUMING = ['([KR])', 'K', '[DE]', 'KP']
-ALL_RULES = NAMED + USER_ZERO + USER_CONSUMING
+# one regex whose alternatives mix both styles: every match is read by its own width (zero-width -> its position,
+# consuming -> start + 1)
+USER_MIXED = ['(?=D)|([KR])', '([KR])|(?=D)', '(?<=E)|K', 'K(?=A)|(?=P)', '(?<=[DE])|[FWY]']
+ALL_RULES = NAMED + USER_ZERO + USER_CONSUMING + USER_MIXED
 RETURN_TYPES = ['str', 'annotation', 'span', 'str-span', 'annotation-span']
 
 
@@ -133,16 +139,20 @@ def expected_digest(protein, rules, missed, semi, min_len, max_len, complete):
 
 
 def run_digest(ctx, st, pt, protein, rules, missed=0, semi=False, min_len=None, max_len=None, complete=True,
-               return_type='span', sort_output=True, via='digest'):
-    case = {'protein': protein, 'rules': rules, 'missed': missed, 'semi': semi, 'min_len': min_len,
+               return_type='span', sort_output=True, via='digest', rule_obj=None):
+    case = {'protein': protein, 'rules': list(rules), 'missed': missed, 'semi': semi, 'min_len': min_len,
             'max_len': max_len, 'complete': complete, 'return_type': return_type, 'sort_output': sort_output,
             'via': via}
     ctx.begin(case)
     exp, emu, nonspec, site_list = expected_digest(protein, rules, missed, semi, min_len, max_len, complete)
     st.case = {'nonspecific': nonspec}
     rule_arg = rules[0] if len(rules) == 1 and ctx.rng.random() < 0.5 else list(rules)
+    if rule_obj is not None:        # the caller's own list (or configuration) object, reused and edited between calls
+        rule_arg = rule_obj
     try:
-        if via == 'digest':
+        if rule_obj is not None and via == 'config':
+            res = list(pt.digest_from_config(protein, rule_obj, min_len, max_len, return_type, sort_output))
+        elif via == 'digest':
             res = list(pt.digest(protein, rule_arg, missed, semi, min_len, max_len, complete, return_type, sort_output))
         else:
             cfg = pt.EnzymeConfig(regex=rule_arg, missed_cleavages=missed, semi_enzymatic=semi,
@@ -198,7 +208,8 @@ def run_digest(ctx, st, pt, protein, rules, missed=0, semi=False, min_len=None, 
             ctx.violation('digest-output-not-sorted', {'case': case, 'observed': spans[:10]})
     inner = len({x for x in site_list if 0 < x < n})
     ctx.sig((via, sorted({'nonspec' if r in rd.NON_SPECIFIC else 'named' if r in rd.NAMED else
-                          'zero-width' if r in USER_ZERO else 'consuming' for r in rules}), len(rules),
+                          'zero-width' if r in USER_ZERO else 'mixed' if r in USER_MIXED else 'consuming'
+                          for r in rules}), len(rules),
              min(n, 12) if n < 12 else '12+', missed, semi, min_len is not None, max_len is not None, complete,
              return_type, sort_output, min(inner, 4)), inner > 0)
     if ctx.cases % 997 == 0:
@@ -283,6 +294,7 @@ def bounds(rng, n_max):
 def run(ctx):
     st = State()
     pt = install(ctx, st)
+    ctx.enable_disturb(pt, 0.002)     # other legitimate library calls interleaved between cases (vf.gen.disturb)
     quick = ctx.quick()
     rng = ctx.rng
     k = 0
@@ -372,10 +384,39 @@ def run(ctx):
     for _ in range(ctx.n(3000, 80000)):
         n = rng.randint(0, 40)
         prot = ''.join(rng.choice('KRPDEAFWYLGS') for _ in range(n))
-        specific = [r for r in ALL_RULES if r not in rd.NON_SPECIFIC]
+        # mixed-style regexes are left out of the sequential clause: a look-behind alternative sees the residue before a
+        # fragment only in the undigested protein, so '(?<=E)|K' reads the K after an earlier E-cut differently in the
+        # two procedures whatever the implementation
+        specific = [r for r in ALL_RULES if r not in rd.NON_SPECIFIC and r not in USER_MIXED]
         stages = [rng.sample(specific, rng.choice([1, 1, 2])) for _ in range(rng.randint(1, 3))]
         lo, hi = bounds(rng, min(n, 12))
         run_sequential(ctx, st, pt, prot, stages, lo, hi, rng.choice(RETURN_TYPES))
+    # ---- F. histories on one rule list object: the caller keeps one list (or one EnzymeConfig) and edits it in place
+    #         between digests of the same protein; every call must answer for the rules the list holds at that moment
+    specific = [r for r in ALL_RULES if r not in rd.NON_SPECIFIC and r != 'no-cleave']
+    for _ in range(ctx.n(1500, 40000)):
+        n = rng.randint(2, 30)
+        prot = ''.join(rng.choice('KRPDEAFWYLGS') for _ in range(n))
+        held = rng.sample(specific, rng.choice([1, 1, 2]))
+        use_cfg = rng.random() < 0.35
+        missed, semi = rng.randint(0, 2), rng.random() < 0.25
+        cfg = pt.EnzymeConfig(regex=held, missed_cleavages=missed, semi_enzymatic=semi, complete_digestion=True) \
+            if use_cfg else None
+        if cfg is not None:
+            held = cfg.regex if isinstance(cfg.regex, list) else held
+        rt = rng.choice(RETURN_TYPES)
+        for step in range(rng.randint(2, 4)):
+            run_digest(ctx, st, pt, prot, list(held), missed, semi, None, None, True, rt, True,
+                       'config' if use_cfg else 'digest', rule_obj=cfg if use_cfg else held)
+            op = rng.random()
+            if op < 0.5 or len(held) == 1:
+                held.append(rng.choice([r for r in specific if r not in held]))
+            elif op < 0.8:
+                held.remove(rng.choice(held))
+            else:
+                held[rng.randrange(len(held))] = rng.choice([r for r in specific if r not in held])
+            if rng.random() < 0.3:
+                rt = rng.choice(RETURN_TYPES)
     ctx.extra['build_spans_direct_decisions'] = st.bs_direct
     ctx.extra['build_spans_nested_decisions'] = st.bs_nested
     ctx.extra['cleavage_site_decisions'] = st.sites_checked
